@@ -10,8 +10,16 @@ LIST="$@"; [ -z "$LIST" ] && LIST="${!OWN[@]}"
 for c in $LIST; do
   P=${OWN[$c]}
   rm -rf $WT; git -C /repo worktree prune; git -C /repo worktree add -q --detach $WT HEAD || continue
-  if ! git -C $WT revert --no-commit $c >/dev/null 2>&1; then echo "REVERT $c ($P): conflict, skipped"; git -C /repo worktree remove --force $WT; continue; fi
-  (cd $WT && go build ./... >/dev/null 2>&1) || { echo "REVERT $c ($P): does not build, skipped"; git -C /repo worktree remove --force $WT; continue; }
+  if ! git -C $WT revert --no-commit $c >/dev/null 2>&1; then
+    # later fixes touch the same lines: undo the fix semantically instead (tools/manual_reverts.py)
+    git -C $WT revert --abort >/dev/null 2>&1; git -C $WT reset -q --hard HEAD
+    if ! python3 /verif/tools/manual_reverts.py $c $WT; then echo "REVERT $c ($P): conflict, no manual revert, skipped"; git -C /repo worktree remove --force $WT; continue; fi
+  fi
+  if ! (cd $WT && go build ./... >/dev/null 2>&1); then
+    # the textual revert does not compile (later fixes use what it removes): semantic revert instead
+    git -C $WT revert --abort >/dev/null 2>&1; git -C $WT reset -q --hard HEAD
+    python3 /verif/tools/manual_reverts.py $c $WT && (cd $WT && go build ./... >/dev/null 2>&1) || { echo "REVERT $c ($P): does not build, skipped"; git -C /repo worktree remove --force $WT; continue; }
+  fi
   R=$(cd /verif && VERIF_REPO=$WT timeout 3000 python3 tools/vcheck $P --tier quick 2>&1 | egrep "VIOLATION|INCONCL|$P quick" | tail -2)
   N=$(echo "$R" | grep -c VIOLATION)
   echo "REVERT $c ($P): $( [ $N -gt 0 ] && echo detected || echo NOT-DETECTED ) $(echo "$R" | tail -1 | cut -c1-160)"
